@@ -333,6 +333,7 @@ class SeparatedCoords(Coords):
     def __iadd__(self, b):
         '''Add `b` to the coordinates separately in-place.
         '''
+        b = np.ones(len(self)) * b
         for i in range(len(self)):
             self.separated_coords[i] += b[i]
         return self
